@@ -50,7 +50,20 @@ type ControlResult struct {
 }
 
 func loadControls(verif, property string) ([]Control, error) {
-	dir := filepath.Join(verif, "controls", property)
+	own, err := loadControlDir(verif, property, property)
+	if err != nil {
+		return nil, err
+	}
+	// controls that apply to every property (independent benign refactorings)
+	all, err := loadControlDir(verif, "_all", property)
+	if err != nil {
+		return nil, err
+	}
+	return append(own, all...), nil
+}
+
+func loadControlDir(verif, sub, property string) ([]Control, error) {
+	dir := filepath.Join(verif, "controls", sub)
 	ents, err := os.ReadDir(dir)
 	if err != nil {
 		if os.IsNotExist(err) {
@@ -72,6 +85,7 @@ func loadControls(verif, property string) ([]Control, error) {
 			return nil, fmt.Errorf("%s: %w", e.Name(), err)
 		}
 		c.Name = strings.TrimSuffix(e.Name(), ".json")
+		c.Property = property
 		out = append(out, c)
 	}
 	sort.Slice(out, func(i, j int) bool { return out[i].Name < out[j].Name })
